@@ -301,4 +301,21 @@ CHECKS = {
         "note": "Volumes of 5x4x3 voxels; JPEG bound depends on the "
                 "installed libjpeg (stated in ASSUMPTIONS).",
     },
+    "C15": {
+        "engine": "E-INPUT", "level": "exploration",
+        "technique": "bounded exhaustive enumeration of all 48 orientation "
+                     "codes x sizes x chunk sizes x pixel kinds x storage "
+                     "vs an index-mapping reference",
+        "text": "For each of the 48 codes and each size / chunk size / "
+                "pixel kind (grey 8 and 16 bit, RGB, two directories) / "
+                "storage (flat, deep+gzip, sharded) real position-coded PNG "
+                "slices are written (and verified by re-reading), "
+                "convert_slices_in_directory is run in-process, and the "
+                "whole full-resolution scale is read back through a fresh "
+                "accessor and compared voxel by voxel with the volume the "
+                "orientation code designates; slice counts below, equal to "
+                "and not divisible by the chunk depth occur on every axis.",
+        "note": "Volumes of at most 6x2x9 voxels (small-scope: axis "
+                "permutation, flip and window bugs show there).",
+    },
 }
